@@ -171,7 +171,7 @@ def fam_exc(tier: str) -> list[dict]:
 def fam_concurrent(ncallers_list, nreq, offsets, tier: str, rnd: random.Random, limit: int) -> list[dict]:
     """C06: interleavings of concurrent callers under the peer assumption."""
     out = []
-    al = [c for mf in alphabet()["assume"] for c in concrete(mf, "rtu")]
+    amodel = alphabet()["assume"]
     for kind in ("udp", "tcp"):
         fr = FRAMING[kind]
         for ka in (True, False):
@@ -179,12 +179,14 @@ def fam_concurrent(ncallers_list, nreq, offsets, tier: str, rnd: random.Random, 
                 offs = [o for o in itertools.product(offsets, repeat=nc - 1)]
                 total = nc * nreq
                 # per-request fault scripts of depth 2 (retries = 1)
-                per_req = list(itertools.product(al, repeat=2))
+                per_req = list(itertools.product(amodel, repeat=2))
                 combos = itertools.product(offs, itertools.product(per_req, repeat=total))
                 combos = list(itertools.islice(combos, 200000))
                 if len(combos) > limit:
                     combos = rnd.sample(combos, limit)
                 for off, scripts in combos:
+                    if list(off) != sorted(off):
+                        continue            # callers are interchangeable: start offsets in ascending order
                     sc = base(kind, ka, 1)
                     callers = []
                     reg = 100
@@ -198,7 +200,9 @@ def fam_concurrent(ncallers_list, nreq, offsets, tier: str, rnd: random.Random, 
                         callers.append({"start": 0 if c == 0 else off[c - 1], "prog": prog})
                     sc["epochs"] = [callers]
                     # register order = caller-major, the same order as `scripts`
-                    sc["rfaults"] = [list(s) for s in scripts]
+                    sc["rfaults"] = [[concrete(mf, fr)[0] for mf in s] for s in scripts]
+                    sc["abstract"] = {"rf": [list(s) for s in scripts], "conn": [], "gap": 0, "off": [0] + list(off),
+                                      "shape": f"c{nc}x{nreq}"}
                     sc["assume"] = True
                     sc["family"] = "concurrent"
                     out.append(sc)
@@ -400,7 +404,9 @@ def conformance(run: Run, scenarios: list[dict], traces: list[dict], per_group: 
     groups: dict[tuple, list[int]] = {}
     for i, sc in enumerate(scenarios):
         if sc.get("family") == "script" and "abstract" in sc and sc["retries"] <= 3 and sc["T"] == T:
-            groups.setdefault((sc["kind"], sc["ka"], sc["retries"]), []).append(i)
+            groups.setdefault((sc["kind"], sc["ka"], f"r{sc['retries']}"), []).append(i)
+        elif sc.get("family") == "concurrent" and "abstract" in sc:
+            groups.setdefault((sc["kind"], sc["ka"], sc["abstract"]["shape"]), []).append(i)
     total = drift = 0
     import concurrent.futures as cf
     jobs = []
@@ -412,20 +418,30 @@ def conformance(run: Run, scenarios: list[dict], traces: list[dict], per_group: 
             sc, tr = scenarios[i], traces[i]
             trmap: dict[int, int] = {}
             evs = []
+            # requests are numbered caller-major in the model: (caller - 1) * requests-per-caller + k
+            nreq = max(sum(1 for st in c["prog"] if st["do"] == "req") for c in sc["epochs"][0])
+            rmap: dict[int, int] = {}
+            percaller: dict[int, int] = {}
+            for ev in tr["ev"]:
+                if ev["e"] == "CALL":
+                    percaller[ev["c"]] = percaller.get(ev["c"], 0) + 1
+                    rmap[ev["r"]] = (ev["c"] - 1) * nreq + percaller[ev["c"]]
             for ev in tr["ev"]:
                 if ev["e"] not in CONF_KEEP:
                     continue
-                d = {"e": ev["e"], "t": ev["t"], "r": ev.get("r", 0), "tr": 0, "what": "", "out": ev.get("out", ""),
+                d = {"e": ev["e"], "t": ev["t"], "r": rmap.get(ev.get("r", 0), 0), "tr": 0, "what": "", "out": ev.get("out", ""),
                      "why": ev.get("why", "")}
                 if "tr" in ev:
                     d["tr"] = trmap.setdefault(ev["tr"], len(trmap) + 1)
                 if ev["e"] == "DLV":
                     d["what"] = DLV_WHAT.get(ev.get("k", ""), "garb")
                 evs.append(d)
-            scripts.append({"rf": sc["abstract"]["rf"], "conn": sc["abstract"]["conn"], "gap": sc["abstract"]["gap"], "ev": evs})
-        path = os.path.join(run.workdir, f"conform_{kind}_{'ka' if ka else 'nka'}_r{r}.json")
+            ncall = max(len(c) for c in sc["epochs"])
+            scripts.append({"rf": sc["abstract"]["rf"], "conn": sc["abstract"]["conn"], "gap": sc["abstract"]["gap"],
+                            "off": sc["abstract"].get("off", [0] * ncall), "ev": evs})
+        path = os.path.join(run.workdir, f"conform_{kind}_{'ka' if ka else 'nka'}_{r}.json")
         tlc.write_json(path, scripts)
-        jobs.append((path, f"Conform_{kind}_{'ka' if ka else 'nka'}_r{r}", idx))
+        jobs.append((path, f"Conform_{kind}_{'ka' if ka else 'nka'}_{r}", idx))
 
     def one(job):
         path, cfg, idx = job
@@ -449,7 +465,7 @@ def conformance(run: Run, scenarios: list[dict], traces: list[dict], per_group: 
                     drift += 1
                     if drift <= 4:
                         run.notes.append("DRIFT: the design model Protocol.tla has no behaviour matching the recorded execution of script "
-                                         + json.dumps({kk: scenarios[i][kk] for kk in ("kind", "ka", "retries", "rfaults", "connects")})[:400])
+                                         + json.dumps({kk: scenarios[i].get(kk) for kk in ("kind", "ka", "retries", "rfaults", "connects", "epochs")})[:400])
             os.remove(path)
     run.cov["conformance_scripts"] = total
     run.cov["conformance_drift"] = drift
